@@ -432,6 +432,12 @@ type failFile struct {
 	Violation violation       `json:"violation"`
 	Plan      json.RawMessage `json:"plan"`
 	Crash     bool            `json:"crash,omitempty"`
+
+	WorkerSeed uint64 `json:"worker_seed,omitempty"`
+	Checks     string `json:"checks,omitempty"`
+	RunIndex   uint64 `json:"run_index,omitempty"`
+	History    bool   `json:"history,omitempty"`
+	Variant    string `json:"variant,omitempty"`
 }
 
 type workerStats struct {
@@ -569,6 +575,36 @@ func replayOnce(sc *scratch, prop, variant, path string, extraEnv []string) (str
 	}
 	if ws.HarnessErr != "" {
 		return "", string(b), errors.New(ws.HarnessErr)
+	}
+	if ws.ReplayFound {
+		return ws.ReplaySig, string(b), nil
+	}
+	return "", string(b), nil
+}
+
+// replayHistory regenerates the whole sequence of plans the worker executed (same
+// worker seed, same number of plans per rapid check) in a fresh process and
+// returns the signature of the first violation met.
+func replayHistory(sc *scratch, prop, variant string, ff *failFile) (string, string, error) {
+	bin := sc.bins[variant]
+	out := filepath.Join(sc.dir, fmt.Sprintf("hist-out-%d.json", time.Now().UnixNano()))
+	args := []string{"-test.run", "^TestSim$", "-test.count=1", "-test.timeout", "60m"}
+	if worlds[props[prop].World].OneCPU {
+		args = append(args, "-test.cpu", "1")
+	}
+	cmd := exec.Command(bin, args...)
+	cmd.Dir = sc.dir
+	cmd.Env = append(os.Environ(), "VERIF_PROP="+prop, "VERIF_HISTORY=1", "VERIF_OUT="+out, "VERIF_VARIANT="+variant,
+		"VERIF_WORKER_SEED="+strconv.FormatUint(ff.WorkerSeed, 10), "VERIF_CHECKS="+ff.Checks,
+		"VERIF_MAX_RUNS="+strconv.FormatUint(ff.RunIndex+1000, 10), "VERIF_BUDGET_S=3000",
+		"VERIF_FAIL="+filepath.Join(sc.dir, "hist-fail.json"),
+		"GORACE=halt_on_error=0 log_path="+filepath.Join(sc.dir, "race-hist"))
+	b, err := cmd.CombinedOutput()
+	var ws workerStats
+	if sb, e := os.ReadFile(out); e == nil {
+		_ = json.Unmarshal(sb, &ws)
+	} else {
+		return "", string(b), fmt.Errorf("history replay produced no result file: %v\n%s", err, tail(string(b), 30))
 	}
 	if ws.ReplayFound {
 		return ws.ReplaySig, string(b), nil
@@ -752,6 +788,18 @@ func cmdCheck(args []string) int {
 		if c.ff.Crash && got == "PROCESS-CRASH" {
 			got = sig
 		}
+		if got != sig && !c.ff.Crash && c.ff.WorkerSeed != 0 {
+			// the minimised plan alone does not show it: the violation needs state that
+			// earlier runs of the same process left behind. Regenerate the whole history.
+			hg, _, herr := replayHistory(sc, prop, c.variant, c.ff)
+			if herr == nil && hg == sig {
+				c.ff.History, c.ff.Variant = true, c.variant
+				hb, _ := json.MarshalIndent(c.ff, "", " ")
+				_ = os.WriteFile(rpath, hb, 0o644)
+				got = sig
+				fmt.Printf("note: %s reproduces only with the history of its worker process (seed %d, %d runs); replay file marked history=true\n", sig, c.ff.WorkerSeed, c.ff.RunIndex)
+			}
+		}
 		if got != sig {
 			infra = append(infra, fmt.Sprintf("violation %q did not reproduce from %s (replay gave %q)\n%s", sig, rpath, got, tail(outTxt, 20)))
 			continue
@@ -916,7 +964,15 @@ func cmdReplay(args []string) int {
 	if strings.HasPrefix(ff.Violation.Clause, "race") && sc.bins["race"] != "" {
 		variant = "race"
 	}
-	got, out, err := replayOnce(sc, ff.Property, variant, path, nil)
+	var got, out string
+	if ff.History {
+		if ff.Variant != "" && sc.bins[ff.Variant] != "" {
+			variant = ff.Variant
+		}
+		got, out, err = replayHistory(sc, ff.Property, variant, &ff)
+	} else {
+		got, out, err = replayOnce(sc, ff.Property, variant, path, nil)
+	}
 	if err != nil {
 		fmt.Fprintf(os.Stderr, "INFRASTRUCTURE: %v\n", err)
 		return 2
